@@ -319,7 +319,7 @@ Definition delta (i j : nat) : R := if Nat.eqb i j then 1 else 0.
 (* the reported log-det is ln |1 + u.psi|; by the matrix determinant lemma that is
    ln |det (I + u psi^T)| *)
 Theorem planar_ld_det ns w u0 b x : let n := length w in length u0 = n ->
-  let u := planar_u ROps w u0 in
+  let u := planar_u ROps ns w u0 in
   let act := planar_act ROps ns (dot ROps x w + b) in
   let psi := match ns with
              | Some s => vscale ROps (if Rltb act 0 then s else 1) w
@@ -337,15 +337,15 @@ Qed.
 
 Lemma planar_fwd_nth ns w u0 b x i : length u0 = length w -> length x = length w -> (i < length w)%nat ->
   nth i (planar_fwd ROps ns w u0 b x) 0 =
-  nth i x 0 + nth i (planar_u ROps w u0) 0 * planar_act ROps ns (dot ROps w x + b).
+  nth i x 0 + nth i (planar_u ROps ns w u0) 0 * planar_act ROps ns (dot ROps w x + b).
 Proof.
   intros Hu Hx Hi. unfold planar_fwd, vadd.
-  assert (Lu : length (planar_u ROps w u0) = length w).
+  assert (Lu : length (planar_u ROps ns w u0) = length w).
   { unfold planar_u, vadd. rewrite lift2_length, map_length. lia. }
   rewrite nth_lift2; unfold vscale; rewrite ?map_length; try lia.
   change (n_add ROps) with Rplus. change (n_mul ROps) with Rmult. f_equal.
   rewrite (nth_indep _ 0 (0 * planar_act ROps ns (dot ROps w x + b))) by (rewrite map_length; lia).
-  now rewrite (map_nth (fun a => a * planar_act ROps ns (dot ROps w x + b)) (planar_u ROps w u0) 0 i).
+  now rewrite (map_nth (fun a => a * planar_act ROps ns (dot ROps w x + b)) (planar_u ROps ns w u0) 0 i).
 Qed.
 
 Lemma delta_derive x i j : (j < length x)%nat -> is_derive (fun t => nth i (upd x j t) 0) (nth j x 0) (delta i j).
@@ -360,10 +360,10 @@ Theorem planar_fwd_jacobian ns w u0 b x i j (da : R) :
   length u0 = length w -> length x = length w -> (i < length w)%nat -> (j < length w)%nat ->
   is_derive (planar_act ROps ns) (dot ROps w x + b) da ->
   partial_at (planar_fwd ROps ns w u0 b) x i j
-    (delta i j + nth i (planar_u ROps w u0) 0 * (nth j w 0 * da)).
+    (delta i j + nth i (planar_u ROps ns w u0) 0 * (nth j w 0 * da)).
 Proof.
   intros Hu Hx Hi Hj Da. unfold partial_at.
-  set (u := planar_u ROps w u0). set (z := dot ROps w x + b) in *.
+  set (u := planar_u ROps ns w u0). set (z := dot ROps w x + b) in *.
   apply (is_derive_ext (fun t => nth i (upd x j t) 0 + nth i u 0 * planar_act ROps ns (z + nth j w 0 * (t - nth j x 0)))).
   - intros t. rewrite planar_fwd_nth; try assumption; [|rewrite upd_length; lia].
     fold u. do 3 f_equal. rewrite dot_upd by lia. unfold z. ring.
@@ -410,7 +410,7 @@ Qed.
    (invertibility; what get_act_scale is there to ensure when w <> 0) is explicit. *)
 Theorem planar_tanh_ldj w u0 b x : let n := length w in
   length u0 = n -> length x = n ->
-  let u := planar_u ROps w u0 in
+  let u := planar_u ROps None w u0 in
   let act := planar_act ROps None (dot ROps x w + b) in
   let psi := vscale ROps (1 - act * act) w in
   let J := fun i j => delta i j + nth i u 0 * nth j psi 0 in
@@ -427,7 +427,7 @@ Qed.
 (* Planar, leaky-relu activation with negative slope s > 0, away from the kink w.x + b = 0 *)
 Theorem planar_lrelu_ldj s w u0 b x : let n := length w in
   length u0 = n -> length x = n -> 0 < s -> dot ROps x w + b <> 0 ->
-  let u := planar_u ROps w u0 in
+  let u := planar_u ROps (Some s) w u0 in
   let act := planar_act ROps (Some s) (dot ROps x w + b) in
   let psi := vscale ROps (if Rltb act 0 then s else 1) w in
   let J := fun i j => delta i j + nth i u 0 * nth j psi 0 in
@@ -518,40 +518,58 @@ Qed.
 Lemma dot_self_nonneg : forall w : list R, 0 <= dot ROps w w.
 Proof. induction w as [|x w IH]; [unfold dot; cbn; lra|]. rewrite dot_cons. nra. Qed.
 
-(* get_act_scale: w . u_hat = m(w . u) = -1 + log(1 + softplus(w . u)) > -1   (w <> 0) *)
-Lemma planar_u_dot_w w u0 : length u0 = length w -> 0 < dot ROps w w ->
-  dot ROps (planar_u ROps w u0) w = -1 + ln (1 + ln (1 + exp (dot ROps u0 w))) /\
-  -1 < dot ROps (planar_u ROps w u0) w.
+(* get_act_scale: w . u_hat = m(w . u) [/ max(1, negative_slope) for leaky relu],
+   m(t) = -1 + log(1 + softplus t) > -1   (w <> 0) *)
+Lemma planar_u_dot_w ns w u0 : length u0 = length w -> 0 < dot ROps w w ->
+  let M := -1 + ln (1 + ln (1 + exp (dot ROps u0 w))) in
+  dot ROps (planar_u ROps ns w u0) w = (match ns with Some _ => M / planar_k ROps ns | None => M end) /\
+  -1 < M.
 Proof.
-  intros Hl Hw. unfold planar_u. cbv zeta.
+  intros Hl Hw M. unfold planar_u. cbv zeta.
   rewrite dot_vadd_l by (rewrite ?map_length; lia).
-  set (wtu := dot ROps u0 w).
+  set (wtu := dot ROps u0 w) in *.
   change (n_sqrt ROps (dot ROps w w)) with (sqrt (dot ROps w w)).
   rewrite sqrt_sqrt by lra.
-  rewrite (dot_map_l _ ((Num.c ROps (-1) + n_log ROps (Num.c ROps 1 + n_softplus ROps wtu) - wtu) / dot ROps w w)).
-  2:{ intros x. set (q := dot ROps w w). ru. unfold Rdiv. ring. }
-  set (q := dot ROps w w) in *. clearbody wtu q. ru.
-  replace (wtu + (-1 + ln (1 + ln (1 + exp wtu)) - wtu) / q * q)
-    with (-1 + ln (1 + ln (1 + exp wtu))) by (field; lra).
-  split; [reflexivity|].
-  pose proof (exp_pos wtu). assert (0 < ln (1 + exp wtu)) by (rewrite <- ln_1; apply ln_increasing; lra).
-  assert (0 < ln (1 + ln (1 + exp wtu))) by (rewrite <- ln_1; apply ln_increasing; lra). lra.
+  set (mm := match ns with
+             | Some _ => n_div ROps (n_add ROps (Num.c ROps (-1)) (n_log ROps (n_add ROps (Num.c ROps 1) (n_softplus ROps wtu)))) (planar_k ROps ns)
+             | None => n_add ROps (Num.c ROps (-1)) (n_log ROps (n_add ROps (Num.c ROps 1) (n_softplus ROps wtu))) end).
+  rewrite (dot_map_l _ ((mm - wtu) / dot ROps w w)).
+  2:{ intros x. change (n_mul ROps) with Rmult. change (n_div ROps) with Rdiv. change (n_sub ROps) with Rminus.
+      unfold Rdiv. ring. }
+  assert (Em : mm = match ns with Some _ => M / planar_k ROps ns | None => M end) by (destruct ns; reflexivity).
+  rewrite Em. set (q := dot ROps w w) in *. split.
+  - field. lra.
+  - unfold M. pose proof (exp_pos wtu). assert (0 < ln (1 + exp wtu)) by (rewrite <- ln_1; apply ln_increasing; lra).
+    assert (0 < ln (1 + ln (1 + exp wtu))) by (rewrite <- ln_1; apply ln_increasing; lra). lra.
 Qed.
 
+(* the determinant is positive: tanh, and leaky relu with ANY negative slope s > 0 (after fix D7) *)
 Theorem planar_det_pos ns w u0 b x : length u0 = length w -> 0 < dot ROps w w ->
-  match ns with Some s => 0 < s <= 1 | None => True end ->
-  let u := planar_u ROps w u0 in
+  match ns with Some s => 0 < s | None => True end ->
+  let u := planar_u ROps ns w u0 in
   let act := planar_act ROps ns (dot ROps x w + b) in
   let psi := match ns with
              | Some s => vscale ROps (if Rltb act 0 then s else 1) w
              | None => vscale ROps (1 - act * act) w end in
   0 < 1 + dot ROps u psi.
 Proof.
-  intros Hl Hw Hs u act psi. destruct (planar_u_dot_w w u0 Hl Hw) as [_ Hm]. fold u in Hm.
-  assert (K : forall k, 0 < k <= 1 -> 0 < 1 + dot ROps u (vscale ROps k w)).
-  { intros k Hk. rewrite dot_vscale_r. nra. }
-  unfold psi. destruct ns as [s|]; apply K.
-  - destruct (Rltb act 0); lra.
+  intros Hl Hw Hs u act psi. destruct (planar_u_dot_w ns w u0 Hl Hw) as [Hd Hm]. fold u in Hd. cbv zeta in Hd, Hm.
+  set (M := -1 + ln (1 + ln (1 + exp (dot ROps u0 w)))) in *.
+  unfold psi. destruct ns as [s|]; rewrite dot_vscale_r, Hd.
+  - (* leaky relu: slope in {s, 1}, k = max(1, s) >= slope *)
+    set (k := planar_k ROps (Some s)).
+    assert (Hk : 1 <= k /\ s <= k).
+    { unfold k, planar_k, nmax. change (n_ltb ROps) with Rltb. change (Num.c ROps 1) with 1.
+      destruct (Rltb 1 s) eqn:E; [apply Rltb_true in E | apply Rltb_false in E]; lra. }
+    assert (K : forall sl, 0 < sl <= k -> 0 < 1 + sl * (M / k)).
+    { intros sl Hsl. destruct (Rle_dec 0 M) as [HM|HM].
+      - assert (0 <= M / k) by (apply quot_nonneg; lra). nra.
+      - assert (E : sl * (M / k) = (sl / k) * M) by (field; lra). rewrite E.
+        assert (0 < sl / k <= 1).
+        { split; [apply Rdiv_lt_0_compat; lra|].
+          apply Rmult_le_reg_r with k; [lra|]. unfold Rdiv. rewrite Rmult_assoc, Rinv_l by lra. lra. }
+        nra. }
+    destruct (Rltb act 0); apply K; lra.
   - unfold act. cbn [planar_act]. change (n_tanh ROps) with th.
     pose proof (dth_pos (dot ROps x w + b)) as D. unfold dth in D.
     pose proof (th_bounds (dot ROps x w + b)). nra.
